@@ -69,7 +69,9 @@ Lemma resume_ok cfg c p f s sn :
   res (step_resume cfg c p f s sn) = Ok <-> tail_completes p f s.
 Proof.
   unfold step_resume, tail_completes, has_id.
-  destruct (f_sm f && negb (str_eqb (p_sm_id p) [])); [|apply bind_ok].
+  destruct (f_sm f && negb (str_eqb (p_sm_id p) [])).
+  2: { destruct (f_sm f); [apply bind_ok|].
+       pose proof (bind_ok cfg c (clear_sm p) f s sn) as H. cbn [p_sm_enable clear_sm] in H. exact H. }
   destruct s as [|i s'].
   { absurd_case. }
   destruct i; try absurd_case.
@@ -242,8 +244,8 @@ Proof.
     + pose proof (bind_shape cfg c (clear_sm p) f s' [SFailed]) as H.
       unfold outs in *. destruct (step_bind _ _ _ _ _ _) as [[w r] p2]. cbn [fst] in *.
       unfold reqs in *. rewrite map_app. cbn [map o_req o app ordered_tail]. exact H.
-  - pose proof (bind_shape cfg c p f s sn) as H.
-    destruct (reqs (outs (step_bind cfg c p f s sn))) as [|[] l]; try discriminate; exact H.
+  - pose proof (bind_shape cfg c (if f_sm f then p else clear_sm p) f s sn) as H.
+    destruct (reqs (outs (step_bind cfg c (if f_sm f then p else clear_sm p) f s sn))) as [|[] l]; try discriminate; exact H.
 Qed.
 
 Lemma auth_shape cfg c p f s sn : ordered_auth (reqs (outs (step_auth cfg c p f s sn))) = true.
@@ -320,8 +322,8 @@ Proof.
       unfold reqs in H. rewrite map_app in H. cbn [map o_req o app] in H.
       apply (Hhead (reqs w)); assumption.
   - intros H. exfalso.
-    pose proof (bind_shape cfg c p f s sn) as Hs.
-    destruct (reqs (outs (step_bind cfg c p f s sn))) as [|[] l]; try discriminate; [inversion H|].
+    pose proof (bind_shape cfg c (if f_sm f then p else clear_sm p) f s sn) as Hs.
+    destruct (reqs (outs (step_bind cfg c (if f_sm f then p else clear_sm p) f s sn))) as [|[] l]; try discriminate; [inversion H|].
     destruct H as [H|H]; [discriminate|].
     destruct l as [|[] l']; try discriminate; [inversion H| |].
     + destruct H as [H|H]; [discriminate|]. destruct l' as [|[] l'']; try discriminate; [inversion H|].
